@@ -305,6 +305,17 @@ def _bcarrays_cases(tier):
             for j in range(0, len(P), 4):
                 for l in range(0, len(P), 5):
                     yield {"bca": [P[i], P[j], P[l]]}
+    # every ordered pair of dimension lists (ordered subsets of at most 3 of the 4 names): rotations of three dimensions relative to
+    # the joint order together with missing dimensions need four distinct names
+    import itertools
+    Q = []
+    for r in range(0, 4):
+        for dims in itertools.permutations(["x", "y", "z", "t"], r):
+            Q.append(D.spec(list(dims), [AXDEF[d][1] for d in dims], [AXDEF[d][0] for d in dims], vk="f", base=40 + len(Q)))
+    for i in range(len(Q)):
+        for j in range(len(Q)):
+            if len(Q[i]["dims"]) + len(Q[j]["dims"]) >= 4 or tier != "quick":
+                yield {"bca": [Q[i], Q[j]]}
 
 
 def state_key(case):
